@@ -11,7 +11,7 @@ R4 option flow: load(), tile_fits() and the command-line loaders hand the user's
 """
 import ast
 
-from sa import sym, termdiff
+from sa import sym, termdiff, boolalg
 from sa.sym import show, num, num_value, atoms_of
 from sa.model import dotted, own_calls, own_nodes, callee_attr
 from . import memo
@@ -90,19 +90,50 @@ def _r1_r2(run, ev):
             continue
         idx, hdu = leaf[1]
         cdesc = [("" if p else "not ") + show(c)[:50] for c, p in conds]
+        # combinations of arms that cannot occur together (a helper returned None exactly when the caller's `is None` test is true)
+        rows = boolalg.table([boolalg.conj(list(conds))], total_order=False)
+        if rows is not None and not any(v[0] for _e, v in rows):
+            continue
         # enumerate case
         if idx[0] in ("item", "sym", "ite") and hdu[0] in ("item", "sym") and "enumerate" in show(idx) + show(hdu) or ("@A" in show(idx) and "@A" in show(hdu)):
-            # both must come from the same enumerate(hdul)
-            en_h = ("call", ("sym", "enumerate"), (hdul,), ())
-            ok = (idx == ("item", ("last", en_h), 0) and hdu == ("item", ("last", en_h), 1)) or \
-                 (idx[0] == "sym" and hdu[0] == "sym" and idx[1].split("@")[1:] == hdu[1].split("@")[1:])
+            # both must come from the same enumerate over the HDU list, counting from the position of its first element
+            ok = None
+            why = "do not come from one enumerate(hdul)"
+            if idx[0] == "item" and hdu[0] == "item" and idx[1] == hdu[1] and idx[2] == 0 and hdu[2] == 1 and idx[1][0] in ("last", "elem") \
+                    and idx[1][1][0] == "call" and idx[1][1][1] == ("sym", "enumerate") and idx[1][1][2]:
+                en = idx[1][1]
+                seq = en[2][0]
+                start = en[2][1] if len(en[2]) > 1 else dict(en[3]).get("start", num(0))
+                first = None
+                if seq == hdul:
+                    first = num(0)
+                elif seq[0] == "sub" and seq[1] == hdul and seq[2][0] == "slice" and seq[2][2] == sym.NONE and seq[2][3] == sym.NONE:
+                    first = num(0) if seq[2][1] == sym.NONE else seq[2][1]
+                if first is not None and num_value(first) is not None and num_value(start) is not None:
+                    ok = num_value(first) == num_value(start)
+                    why = "come from enumerate(%s%s): the search walks the HDUs from position %s but counts from %s, so the index reported for the HDU found is off by %s" % (
+                        _short(seq, hdul), "" if len(en[2]) < 2 and not en[3] else ", start=%s" % show(start), show(first), show(start), num_value(first) - num_value(start))
+            elif idx[0] == "sym" and hdu[0] == "sym":
+                ok = idx[1].split("@")[1:] == hdu[1].split("@")[1:]
             seen_kinds.add("search")
-            if not ok:
-                run.violated("C20.R1", f, node, "default selection: index %s and HDU %s do not come from one enumerate(hdul)" % (show(idx)[:50], show(hdu)[:50]), kind="search-mismatch")
+            if ok is False:
+                run.violated("C20.R1", f, node, "default selection: index %s and HDU %s %s" % (show(idx)[:50], show(hdu)[:50], why), kind="search-mismatch")
+                bad = True
+            elif ok is None:
+                run.undecided("C20.R1", f, node, "default selection: cannot relate index %s and HDU %s" % (show(idx)[:60], show(hdu)[:60]), kind="search-shape")
                 bad = True
             continue
+        # hdu == hdul[idx], up to the spelling of a constant position (hdul[0], hdul[-1] == hdul[len(hdul) - 1])
+        pos = hdu[2] if (hdu[0] in ("sub", "item") and hdu[1] == hdul) else None
+        if isinstance(pos, int):
+            pos = num(pos)
+        same = pos is not None and (pos == idx or (num_value(pos) is not None and num_value(idx) is not None and num_value(pos) == num_value(idx))
+                                    or (num_value(pos) is not None and num_value(pos) < 0 and idx == sym.add(("call", ("sym", "len"), (hdul,), ()), pos)))
+        if same and num_value(pos) is not None:
+            seen_kinds.add("search")          # a fixed position: part of the default search (first / last HDU)
+            continue
         want_hdu = ("sub", hdul, idx)
-        if hdu != want_hdu:
+        if hdu != want_hdu and not same:
             run.violated("C20.R1", f, node, "case %s: the HDU yielded is %s but the index reported for it is %s (hdul[<that index>] expected): descriptions, images and "
                          "export_simple would refer to different HDUs, or the lookup fails outright" % (cdesc, _short(hdu, hdul), show(idx)[:60]), kind="hdu-index-mismatch")
             bad = True
